@@ -269,6 +269,50 @@ Fixpoint plain_path (p : place) : bool :=
   | PParen q => plain_path q
   end.
 
+(* ---- the rule as a function over the access chain ------------------------------------------------------------ *)
+
+(* a link of an access chain rt.l1.l2...: a field holding a value, a field of type &T, a field of type &'T,
+   an element of a fixed-size array, an element of a dynamic array *)
+Inductive link := LVal | LImm | LMut | LFixed | LDyn.
+
+(* reference kind of the expression after the link *)
+Definition link_ref (k : link) : refk :=
+  match k with LImm => RImm | LMut => RMut | _ => RNone end.
+
+Definition wrap (p : place) (k : link) : place :=
+  match k with
+  | LVal => PField p RNone | LImm => PField p RImm | LMut => PField p RMut
+  | LFixed => PIndex p IFixed RNone | LDyn => PIndex p IDyn RNone
+  end.
+
+(* the place  p.l1.l2...ln  (links applied left to right) *)
+Fixpoint place_from (p : place) (l : list link) : place :=
+  match l with [] => p | k :: r => place_from (wrap p k) r end.
+
+(* some expression on the path, the written one included, is an immutable reference
+   (cur: reference kind of the expression reached so far) *)
+Fixpoint imm_from (cur : refk) (l : list link) : bool :=
+  match l with
+  | [] => is_imm cur
+  | k :: r => is_imm cur || imm_from (link_ref k) r
+  end.
+
+(* no link is applied to a reference: the written slot is part of the root binding's own storage *)
+Fixpoint own_from (cur : refk) (l : list link) : bool :=
+  match l with
+  | [] => true
+  | k :: r => negb (is_ref cur) && own_from (link_ref k) r
+  end.
+
+(* THE RULE: writing (=, compound assignment, ++/--) to  root.l1...ln  is an error iff an immutable reference lies
+   anywhere on the path (root and written expression included), or the root is a constant / read-only variable and
+   no link before the written slot goes through a reference *)
+Definition chain_error (s : sym) (l : list link) : bool :=
+  imm_from (s_ref s) l || (sym_ro s && own_from (s_ref s) l).
+
+Definition write_form (f : form) : bool :=
+  match f with FAssign | FCompound | FIncDec => true | _ => false end.
+
 (* ---- pre-fix code (original ref.go / typechecker.go), for the refutation witness ---------------------------- *)
 
 (* constant / read-only test only when the target is a bare identifier *)
